@@ -466,8 +466,8 @@ def gen_cases(tier, rng):
         yield {"spec": ["mplx", 0, [t]]}
         yield {"spec": ["mplx", 1, [t, t]]}
         yield {"spec": ["ctrl", [1], ["mplx", 0, [t]]]}
-    # mismatching target widths: np.stack refuses
-    yield {"spec": ["mplx", 1, [["leaf", "RyGate", 0.3], ["general", 2, 5, True]]]}
+    # (a multiplexer with targets of different widths can no longer be constructed - /repo 53831ae, theorem C01_ctor_multiplexed_iff -
+    # so the former "np.stack refuses" case of as_tensornet is unreachable and is not generated any more)
     # random nested gates
     for _ in range(1500 if thorough else 250):
         yield {"spec": ["random", rng.randrange(10 ** 12), rng.choice([1, 2, 2, 3]), rng.random() < 0.5]}
